@@ -14,7 +14,8 @@ GEN_MODULES = ["TimingArgs", "Irregular"]
 EXTRA_LEAN_MODULES = ["NiVerif.Props.C20b"]
 THEOREMS = ["unsupported_ok", "ctor_accepts_iff_allowed", "ctor_error_class", "ctor_stores", "has_flags_exact",
             "absent_member_RuntimeError", "empty_has_nothing", "eq_iff_members", "named_ctors_agree",
-            "gen_unsupported_eq_model", "gen_strategy_table", "gen_ctor_eq_model", "gen_validators_accept_iff", "gen_accessors_eq_model"]
+            "gen_unsupported_eq_model", "gen_strategy_table", "gen_ctor_eq_model", "gen_validators_accept_iff", "gen_accessors_eq_model",
+            "gen_named_ctors_eq_model", "gen_eq_compares_all_members", "gen_reduce_is_ctor_args"]
 RULE = ("the whole matrix: 4 modes (NONE, REGULAR, IRREGULAR, unknown) x 13 argument kinds for each of "
         "(timestamp, time_offset, sample_interval, timestamps) = 4 x 13^4 constructor calls on the real class, each "
         "compared with the Lean model's verdict (accepted members / error class) and with the property's table; "
